@@ -30,3 +30,16 @@ Definition c02_selfmove_checkb (before_t after_t : wtree) (w : Z) (nl nc : Z)
                       end) (grid_cells nl nc)
   | _, _, _ => true
   end.
+
+(* A window hidden by ANOTHER window's expose handler (and never shown by a handler) is handed
+   nothing from then on in that flush: in the log of expose events no entry of the hider [h] is
+   followed by an entry of the hidden window [w].  ([w] not above [h]: a window whose own expose
+   is under way still gets its event.) *)
+Fixpoint occurs_after (h w : Z) (l : list Z) : bool :=
+  match l with
+  | [] => false
+  | x :: r => if x =? h then existsb (fun y => y =? w) r || occurs_after h w r else occurs_after h w r
+  end.
+
+Definition c02_hide_order_checkb (hides : list (Z * Z)) (log : list (Z * rect)) : bool :=
+  forallb (fun hw => negb (occurs_after (fst hw) (snd hw) (map fst log))) hides.
